@@ -282,6 +282,25 @@ func c09EffectSites(fn *ssa.Function, bind c09Bind, isEffect func(call ssa.CallI
 	return out
 }
 
+// c09MayBeNilAtom: the error value of this return atom can be nil there — it
+// is not a constructed error and the return does not sit on the non-nil side of
+// the value's own nil test (`if err != nil { return err }`).
+func c09MayBeNilAtom(g *ssa.Function, a RetAtom) bool {
+	if ErrNilStatus(a.Val, 0) == NonNil {
+		return false
+	}
+	if _, isZero := a.Val.(zeroMarker); isZero {
+		return true
+	}
+	if _, isConst := a.Val.(*ssa.Const); isConst {
+		return true
+	}
+	if _, nonNil, _ := NilTests(g, Aliases(a.Val)); len(nonNil) > 0 && MustPass(a.Ret, newCut().Edges(nonNil...)) {
+		return false
+	}
+	return true
+}
+
 // c09NilReturnsPass: every return of g that may carry a nil error (every return,
 // if g has no error result) has executed one of the instructions.
 func c09NilReturnsPass(g *ssa.Function, ins []ssa.Instruction) bool {
